@@ -3,6 +3,7 @@
 Outcome monitors (results and exception classes) around the real FullGrid.__init__ and its five getters.
 """
 import itertools
+import random
 
 import numpy as np
 
@@ -93,14 +94,25 @@ def install():
     return FullGrid
 
 
-def drive(FullGrid, b, o, t, cart, factor=2):
-    REC.begin_case({"b": b, "o": o, "t": t, "cartesian": cart, "factor": factor}, cls=[f"cartesian={cart}"],
+TRUTHY = [True, np.True_, 1, np.float64(2.0) > 1]
+FALSY = [False, np.False_, 0]
+
+
+def drive(FullGrid, b, o, t, cart, factor=2, variant=0):
+    """variant selects the spelling of the mode flag, the order of the getters and whether every getter is asked a second time (in reverse
+    order): a grid must construct and answer whatever was asked of it before"""
+    flag = (TRUTHY if cart else FALSY)[variant % 4 % (4 if cart else 3)]
+    order = list(GETTERS)
+    if variant:
+        random.Random(variant).shuffle(order)
+    REC.begin_case({"b": b, "o": o, "t": t, "cartesian": bool(cart), "factor": factor, "variant": variant},
+                   cls=[f"cartesian={bool(cart)}", f"flag={type(flag).__name__}", f"getters_twice={variant % 3 == 1}"],
                    sample=(b == "2" and o == "3" and not cart))
     try:
-        fg = FullGrid(b, o, t, factor=factor, position_grid_cartesian=cart)
+        fg = FullGrid(b, o, t, factor=factor, position_grid_cartesian=flag)
     except Exception:
         return
-    for g in GETTERS:
+    for g in order + (order[::-1] if variant % 3 == 1 else []):
         try:
             getattr(fg, g)()
         except Exception:
@@ -134,6 +146,10 @@ def specs(tier):
         for t in ("[0.3, 0.30000004]", "linspace(0.3, 0.30000006, 3)"):
             out.append(("1", "4", t, cart, 2))
             out.append(("4", "5", t, cart, 2))
+    # direction grids large enough for bounded Cartesian cells
+    for o in ("ico_6", "cube3D_8", "ico_12", "randomS_9", "ico_20", "cube3D_26"):
+        for cart in (False, True):
+            out.append(("2", o, ts[1], cart, 2))
     if tier == "thorough":
         for t in ts:
             for cart in (False, True):
@@ -153,7 +169,7 @@ def histories():
 
 def shards(tier, seed):
     nsh = 8 if tier == "quick" else 16
-    return [{"nshards": nsh, "shard": i} for i in range(nsh)] + [{"history": k} for k in range(len(histories()))]
+    return [{"nshards": nsh, "shard": i, "seed": seed} for i in range(nsh)] + [{"history": k} for k in range(len(histories()))]
 
 
 def run_shard(spec):
@@ -162,11 +178,14 @@ def run_shard(spec):
         for (b, o, t, cart, f) in histories()[spec["history"]]:
             drive(FullGrid, b, o, t, cart, f)
         return
+    rng = random.Random(spec.get("seed", 0) * 1000 + spec["shard"])
     for k, (b, o, t, cart, f) in enumerate(specs(spec["tier"])):
         if k % spec["nshards"] == spec["shard"]:
-            drive(FullGrid, b, o, t, cart, f)
+            drive(FullGrid, b, o, t, cart, f)                                   # the plain form: literal flag, documented getter order
+            if rng.random() < (0.5 if spec["tier"] == "quick" else 1.0):
+                drive(FullGrid, b, o, t, cart, f, variant=rng.randint(1, 10 ** 6))  # another flag spelling / getter order / repeated getters
 
 
 def replay(case):
     FullGrid = install()
-    drive(FullGrid, case["b"], case["o"], case["t"], case["cartesian"], case.get("factor", 2))
+    drive(FullGrid, case["b"], case["o"], case["t"], case["cartesian"], case.get("factor", 2), case.get("variant", 0))
